@@ -9,7 +9,7 @@ Engine `route`: replays a child-process logging session on the routing + pipelin
   root <level> <a,b|-> [add|nonadd]                        (root's additive flag is ignored by the code)
   logger <name|~> <level> <add|nonadd> <a,b|->
   emit <thread> <seq> <log|tracing> <target|~> <level> => <a,b|->     appenders whose stream got it
-  shutdown <shutdown|drop> => ok
+  shutdown <shutdown|drop|scope|shutdownthread|dropthread|panicdrop|paniccatch> => ok
   stream <appender> => <t.s,t.s,...|-> <disconnected|timeout>        stream content in receive order
 
 Block appenders are drained concurrently by the harness, so the model's delivered set must be
@@ -31,6 +31,8 @@ structure St where
   routed : List (Nat × Nat × List Appender) := []
   streamsSeen : List Appender := []
   sawShutdown : Bool := false
+  guardEnd : Pipeline.GuardEnd := .shutdownCall false
+  guardName : String := "shutdown"
   /-- `kind=race` cases: events per thread -/
   raceN : Option Nat := none
 
@@ -82,9 +84,20 @@ def expectedSeqs (s : St) (a : Appender) (t : Nat) : List Nat :=
 
 def threadsOf (s : St) : List Nat := sortDedup (s.routed.map (·.1))
 
+/-- the harness's names for the ways the guard ends (see `end_guard` in logproch.rs) -/
+def guardEnd? : String → Option Pipeline.GuardEnd
+  | "shutdown" => some (.shutdownCall false)
+  | "shutdownthread" => some (.shutdownCall true)
+  | "drop" => some (.drop false false)
+  | "scope" => some (.drop false false)
+  | "dropthread" => some (.drop true false)
+  | "panicdrop" => some (.drop true true)
+  | "paniccatch" => some (.drop false true)
+  | _ => none
+
 /-- schedule that feeds the impl's receive order through the Pipeline model -/
-def scheduleOf (ms : List Pipeline.Msg) : List Pipeline.Step :=
-  (ms.flatMap (fun m => [.sendBegin m, .sendEnd m, .consume])) ++ [.setFlag, .close, .seeDisconnected]
+def scheduleOf (g : Pipeline.GuardEnd) (ms : List Pipeline.Msg) : List Pipeline.Step :=
+  (ms.flatMap (fun m => [.sendBegin m, .sendEnd m, .consume])) ++ Pipeline.shutdownSteps g ++ [.seeDisconnected]
 
 def isPrefix (a b : List Nat) : Bool := a.isPrefixOf b
 
@@ -143,7 +156,7 @@ def stepStream (s : St) (aName : String) (res : List String) : Except String (St
       else
         -- run the Pipeline model on the observed order
         let p0 := Pipeline.init (max (capOf s a) 1) (if block then .block else .dropNewest) .stream
-        match Pipeline.run p0 (scheduleOf ms) with
+        match Pipeline.run p0 (scheduleOf s.guardEnd ms) with
         | some p =>
           if p.out == ms && p.phase == .exited && p.accepted == ms then
             .ok ({ s with streamsSeen := a :: s.streamsSeen },
@@ -192,10 +205,13 @@ def stepRace (s : St) (n : Nat) (app : String) (t : Nat) (res : List String) : E
     let fin : List Pipeline.Step := match consumer with
       | .writer => [.seeFlag, .drainEmpty]
       | .stream => [.seeDisconnected]
-    match Pipeline.run (Pipeline.init 1 .block consumer) (pre ++ [.setFlag] ++ conc ++ [.close] ++ late ++ fin) with
+    let sd := match Pipeline.shutdownSteps s.guardEnd with
+      | [a, b] => some (a, b)
+      | _ => none
+    match sd.bind (fun (a, b) => Pipeline.run (Pipeline.init 1 .block consumer) (pre ++ [a] ++ conc ++ [b] ++ late ++ fin)) with
     | some p =>
       if p.phase == .exited && p.out.map (·.seq) == got && p.accepted == p.out && p.dropped.isEmpty then
-        .ok (s, ["race-" ++ app, if got.length > snap then "race-concurrent-emits-delivered" else "race-exact",
+        .ok (s, ["race-" ++ app, "race-guard-" ++ s.guardName, if got.length > snap then "race-concurrent-emits-delivered" else "race-exact",
                  if got.length < n then "race-late-emits-refused" else "race-all-before-close"])
       else .error "model=pipeline-out-differs"
     | none => .error "model=pipeline-schedule-not-enabled"
@@ -229,8 +245,12 @@ def step (s : St) (op res : List String) : Except String (St × List String) :=
     match t.toNat?, q.toNat? with
     | some t, some q => stepEmit s t q api target lvl res
     | _, _ => .error "bad-op emit"
-  | ["shutdown", _kind] =>
-    if res.getD 0 "" = "ok" then .ok ({ s with closed := true, sawShutdown := true }, ["shutdown"]) else .error "model=[ok]"
+  | ["shutdown", kind] =>
+    match guardEnd? kind with
+    | none => .error "bad-op shutdown kind"
+    | some g =>
+      if res.getD 0 "" = "ok" then .ok ({ s with closed := true, sawShutdown := true, guardEnd := g }, ["shutdown-" ++ kind])
+      else .error "model=[ok]"
   | ["stream", a] => stepStream s a res
   | _ => .error "bad-op"
 
@@ -241,9 +261,10 @@ def finish (s : St) : Except String (List String) :=
 
 def init (ws : List String) : Except String St :=
   if ws.contains "kind=race" then
-    match (ws.find? (·.startsWith "n=")).bind (fun w => (w.drop 2).toString.toNat?) with
-    | some n => .ok { raceN := some n }
-    | none => .error "race case without n="
+    match (ws.find? (·.startsWith "n=")).bind (fun w => (w.drop 2).toString.toNat?),
+          (ws.find? (·.startsWith "sd=")).bind (fun w => (guardEnd? (w.drop 3).toString).map (fun g => (g, (w.drop 3).toString))) with
+    | some n, some (g, nm) => .ok { raceN := some n, guardEnd := g, guardName := nm }
+    | _, _ => .error "race case without n= / known sd="
   else .ok {}
 
 def engine : Engine St := { init := init, step := step, finish := finish }
